@@ -135,11 +135,34 @@ func scenarioRelay() int {
 	}
 	branches := map[string]string{}
 	var cases []*relayCase
+	oversize := 0
 	relayed := map[string]int{}
 	for i := 0; i < n; i++ {
 		if h := w.Health(); h != "" {
 			run.Violation("proxy died during the run (belongs to C08; the run cannot continue)", map[string]any{"health": h})
 			break
+		}
+		if prop == "C02" && i%60 == 30 {
+			// a response that cannot be relayed: it came in over TCP and is too big for the datagram it
+			// would have to leave in. Not judged itself - but the responses that go to the same hop
+			// afterwards are, like all the others.
+			p := wire.Path{UA: g.R.Intn(len(w.UAs)), Svc: g.R.Intn(len(w.Svcs)), Proto: "tcp"}
+			sv := w.Svcs[p.Svc]
+			for _, h := range w.Hops {
+				big := &sip.Msg{Start: "SIP/2.0 183 Session Progress"}
+				big.Headers = []sip.Header{
+					{Name: "Via", Value: fmt.Sprintf("SIP/2.0/UDP %s:%d;branch=z9hG4bKtopbig%d", sv.IP, sv.UDP, i)},
+					{Name: "Via", Value: fmt.Sprintf("SIP/2.0/UDP %s:%d;branch=z9hG4bKbig%d", h.IP, wire.NextHopPortA, i)},
+					{Name: "From", Value: "<sip:a@b>;tag=1"}, {Name: "To", Value: "<sip:c@d>;tag=2"},
+					{Name: "Call-ID", Value: fmt.Sprintf("big%d@vf", i)}, {Name: "CSeq", Value: "1 INVITE"},
+					{Name: "Content-Length", Value: "0"}}
+				wire.WithBody(big, bytes.Repeat([]byte("v=0 "), 16500))
+				w.Send(p, big.Bytes(), "")
+			}
+			if !w.Barrier(p) {
+				w.DropConn(p)
+			}
+			oversize++
 		}
 		if prop == "C01" && i%20 == 19 {
 			// pipelined: several messages written back-to-back on one connection (or from
@@ -293,6 +316,7 @@ func scenarioRelay() int {
 			}
 		}
 	}
+	run.Observe("oversize_responses_sent_in_between", oversize)
 	run.Observe("relays_per_path", relayed)
 	run.Observe("barriers", w.Barriers)
 	run.Observe("barrier_timeouts", w.BarrierMisses)
